@@ -189,6 +189,12 @@ SEEDS.update({
  'C20d': ('update_action_execution_heartbeat never moves last_heartbeat backwards',
           'first_heartbeat_timeout > 0, a heartbeat inside the grace period, then a lost executor'),
 })
+SEEDS.update({
+ 'C13e': ('_capture_scheduled_job keeps the compare-and-swap filter only for never-captured jobs; a stale job is re-captured unconditionally',
+          'an instance dies between capture and delete; after captured_job_timeout two survivors both select the stale row before either re-captures it, and the second capture lands on a later clock second than the first'),
+ 'C17e': ('delete_cron_trigger returns len(session.deleted) after session.delete() instead of the rowcount of DELETE ... WHERE id',
+          'the last execution of a counted trigger; processor B has read the row inside delete_cron_trigger when processor A deletes it and starts the workflow'),
+})
 
 
 def main():
